@@ -1,5 +1,6 @@
 """C17 - per-entity error handling isolates failing entities (log handler bisection, maxItems, reRun)."""
 import itertools
+import os
 
 import vlib
 
@@ -36,16 +37,29 @@ ASSUMPTIONS = [
 EXHAUSTIVE = {"thorough": True}
 
 
+def _tree_has_f11a():
+    """on a tree whose wrappedTransform.EndStoreContext still calls itself (F11a of C11) every run of a job with log handler
+    + transform kills the process at the end of the pipeline; the in-process C17 driver then cannot run transform cases
+    (that defect is C11's business and is caught there)"""
+    try:
+        return "return w.EndStoreContext(s)" in open(os.path.join(vlib.REPO, "internal/jobs/error_handler.go")).read()
+    except OSError:
+        return False
+
+
+TREE_HAS_F11A = _tree_has_f11a()
+
+
 def sink(n, bad=(), failcalls=(), k=0, pre_last=-1, pre_depth=0, pre_count=0):
     return {"kind": "sink", "n": n, "bad": sorted(bad), "failcalls": sorted(failcalls), "maxItems": k,
             "preLast": pre_last, "preDepth": pre_depth, "preCount": pre_count}
 
 
 def job(n, batch, log=True, k=0, rerun=False, retries=0, delay=0, bad=(), failcalls=(), kill=-1, adds=(), crons=0,
-        timer=False, burst=0, full=False):
+        timer=False, burst=0, full=False, transform=False, poke=-1):
     return {"kind": "job", "n": n, "batch": batch, "log": log, "maxItems": k, "rerun": rerun, "maxRetries": retries,
             "retryDelay": delay, "bad": sorted(bad), "failcalls": sorted(failcalls), "killAt": kill, "adds": list(adds),
-            "crons": crons, "timer": timer, "burst": burst, "full": full}
+            "crons": crons, "timer": timer, "burst": burst, "full": full, "transform": transform and not TREE_HAS_F11A, "pokeAt": poke}
 
 
 def witness_cases():
@@ -77,6 +91,13 @@ def witness_cases():
         job(8, 4, True, 0, True, 3, 0, failcalls=[0]), job(8, 4, True, 0, True, 3, 0, failcalls=[1]),
         job(8, 4, True, 0, True, 3, 0, failcalls=[0, 1]), job(8, 4, True, 0, True, 3, 0, failcalls=[0, 2]),
         job(12, 100, True, 2, True, 2, 0, failcalls=[0, 3], bad=[7]),
+        # jobs WITH a transform (the transform is wrapped too): a bisected batch, then a clean run of the same job object
+        job(6, 3, True, 0, True, 2, 0, bad=[1], adds=[3], transform=True),
+        job(8, 4, True, 0, False, 0, 0, bad=[2, 3], adds=[2, 2], crons=2, transform=True),
+        job(6, 2, True, 2, True, 1, 0, bad=[1, 4], adds=[0, 4], crons=1, transform=True, full=True),
+        # a second start of the same job object while the run is in progress (skipped, must not disturb the run)
+        job(10, 1, True, 3, False, 0, 0, bad=list(range(10)), poke=2),
+        job(12, 4, True, 2, True, 1, 0, bad=[1, 5, 9], poke=3), job(9, 3, True, 0, True, 1, 0, bad=[1], poke=4, transform=True),
     ]
 
 
@@ -120,7 +141,8 @@ def gen_job_random(rng, count, maxn):
         fc = rand_subset(rng, 12, rng.choice([1, 2])) if rng.chance(1, 3) else []
         kill = rng.range(0, 8) if rng.chance(1, 6) else -1
         out.append(job(n, batch, log, rng.choice([0, 0, 0, 1, 2, 3, -2]), rerun, rng.choice([0, 1, 2, 3, -1]),
-                       rng.choice([0, 1, 7]), bad, fc, kill, adds, rng.choice([0, 0, 1, 2]), full=rng.chance(1, 4)))
+                       rng.choice([0, 1, 7]), bad, fc, kill, adds, rng.choice([0, 0, 1, 2]), full=rng.chance(1, 4),
+                       transform=rng.chance(1, 3), poke=(rng.range(0, 8) if rng.chance(1, 4) else -1)))
     return out
 
 
@@ -195,13 +217,13 @@ def term(c, o):
         for r in o.get("runs") or []])
     return ("{| t_job := %s; t_n := %d; t_bad := %s; t_failcalls := %s; t_maxItems := %s; t_preLast := %s; t_preDepth := %d; "
             "t_preCount := %d; t_batch := %s; t_log := %s; t_rerun := %s; t_maxRetries := %s; t_retryDelay := %s; t_killAt := %s; "
-            "t_adds := %s; t_crons := %d; t_timer := %s; t_full := %s; t_burst := %d; o_starts := %d; o_outcome := %d; o_res := %d; o_ev := %s; o_last := %s; o_lastSet := %s; o_depth := %s; "
+            "t_adds := %s; t_crons := %d; t_timer := %s; t_transform := %s; t_pokeAt := %s; t_full := %s; t_burst := %d; o_starts := %d; o_outcome := %d; o_res := %d; o_ev := %s; o_last := %s; o_lastSet := %s; o_depth := %s; "
             "o_count := %s; o_calls := %s; o_delay := %s; o_runs := %s; o_delayOk := %s |}" % (
                 vlib.coq_bool(c["kind"] == "job"), c["n"], zl(c["bad"]), zl(c["failcalls"]), vlib.zlit(c["maxItems"]),
                 vlib.zlit(g("preLast", -1)), g("preDepth"), g("preCount"), vlib.zlit(g("batch", 1)),
                 vlib.coq_bool(g("log", False)), vlib.coq_bool(g("rerun", False)), vlib.zlit(g("maxRetries")),
                 vlib.zlit(g("retryDelay")), vlib.zlit(g("killAt", -1)), zl(g("adds", [])), g("crons"),
-                vlib.coq_bool(g("timer", False)), vlib.coq_bool(g("full", False)), g("burst"), o.get("starts", 0), 0 if o.get("outcome") == "ok" else 1, o.get("res", 9), evs(o.get("ev")),
+                vlib.coq_bool(g("timer", False)), vlib.coq_bool(g("transform", False)), vlib.zlit(g("pokeAt", -1)), vlib.coq_bool(g("full", False)), g("burst"), o.get("starts", 0), 0 if o.get("outcome") == "ok" else 1, o.get("res", 9), evs(o.get("ev")),
                 vlib.zlit(o.get("last", -9)), vlib.coq_bool(o.get("lastSet", False)), vlib.zlit(o.get("depth", -1)), vlib.zlit(o.get("count", -1)),
                 vlib.zlit(o.get("calls", -1)), vlib.zlit(o.get("delay", -1)), runs,
                 vlib.coq_bool(o.get("delayOk", False) or c["kind"] != "job")))
